@@ -43,6 +43,8 @@ def _grid(kind):
         return pp.StructuredTriangleGrid([2, 2])
     if kind == "cart32":
         return pp.CartGrid([3, 2])
+    if kind == "cart3d":
+        return pp.CartGrid([2, 1, 1])
     if kind in ("cartflip", "triflip"):
         # same cells, but the node order of every third face is reversed: the face-node ordering no longer
         # forms oriented loops, which sends compute_geometry down its fallback for convex cells
